@@ -1,4 +1,5 @@
-"""Bounded stand-in for C17: histories of deliveries (APPEND / COPY into INBOX by a session that has nothing selected)
+"""Bounded stand-in for C17: histories of deliveries (APPEND / COPY into INBOX by a session that has nothing selected,
+and by the selecting / examining sessions themselves)
 with 2..3 sessions selecting, examining, closing and re-selecting INBOX in every order, on the real server.
 
 Oracle: every uid is seen flagged \\Recent by at most one read-write selection over its lifetime; a read-only selection
@@ -106,6 +107,21 @@ async def scenario(hist, nsess):
                 await d.cmd(b'COPY 1 INBOX')
                 await d.cmd(b'CLOSE')
             tracked |= set((await w.mailbox('INBOX'))._messages) - before_uids
+        elif k in ('own-append', 'own-copy'):
+            # the delivering connection is one of the sessions itself, whatever it has selected (read-write, read-only
+            # or nothing): a read-only selection must not take the \\Recent of what it delivers
+            i = op[1]
+            before_uids = set((await w.mailbox('INBOX'))._messages)
+            r = None
+            if k == 'own-append':
+                r = await sess[i].cmd(b'APPEND INBOX {3}', [b'z\r\n\r\n'])
+            elif mode[i] is not None:
+                r = await sess[i].cmd(b'COPY 1 INBOX')
+            for u in (r['untagged'] if r and mode[i] is not None else ()):
+                m = re.match(rb'^\* (\d+) RECENT', u)      # the command's own untagged data may carry the new count
+                if m:
+                    recent_count[i] = int(m.group(1))
+            tracked |= set((await w.mailbox('INBOX'))._messages) - before_uids
         elif k == 'store':
             i = op[1]
             if mode[i] == 'rw':
@@ -142,7 +158,7 @@ def _worker(args):
 
 def histories(tier, seed):
     ops2 = [('sel', 0), ('exa', 0), ('close', 0), ('sel', 1), ('exa', 1), ('close', 1), ('append',), ('copy',),
-            ('append-recent',), ('store', 0), ('copy-ro',)]
+            ('append-recent',), ('store', 0), ('copy-ro',), ('own-append', 0), ('own-copy', 0)]
     n = 3 if tier == 'quick' else 4
     for h in itertools.product(ops2, repeat=n):
         if any(o[0] in ('sel', 'exa') for o in h):
@@ -150,13 +166,13 @@ def histories(tier, seed):
     if tier != 'quick':
         import random
         rnd = random.Random(seed)
-        ops3 = ops2 + [('sel', 2), ('exa', 2), ('close', 2), ('store', 1)]
+        ops3 = ops2 + [('sel', 2), ('exa', 2), ('close', 2), ('store', 1), ('own-append', 1), ('own-copy', 2)]
         for _ in range(6000):
             yield tuple(rnd.choice(ops3) for _ in range(rnd.choice((5, 6)))), 3
     else:
         import random
         rnd = random.Random(seed)
-        ops3 = ops2 + [('sel', 2), ('exa', 2), ('close', 2)]
+        ops3 = ops2 + [('sel', 2), ('exa', 2), ('close', 2), ('own-append', 1), ('own-copy', 2)]
         for _ in range(600):
             yield tuple(rnd.choice(ops3) for _ in range(5)), 3
 
